@@ -172,7 +172,7 @@ def scenarios(tier):
     S.append(mk("pair-wrong", cfg("set", "wrong", "deferred", drops=(0, 0), sends=0), max_depth=100, max_states=300000))
     # a server error reply to `add` while the wormhole is already happy
     S.append(mk("pair-same-srverr-add-dev3", cfg("set", "same", "delegate", drops=(0, 0), fine=(0, 1), sends=2, srverr=1, srverr_types=("add",)),
-                dev_bound=3 if q else 4, max_depth=200))
+                dev_bound=2 if q else 4, max_depth=200))
     S.append(mk("pair-input-same-dev2", cfg("input", "same", "deferred", drops=(1, 1), fine=(0, 1), reorder=1, dup=1, srverr=1),
                 dev_bound=2, max_depth=250))
     S.append(mk("pair-alloc-same-dev2", cfg("alloc", "same", "delegate", drops=(1, 1), fine=(0, 1), reorder=1, dup=1, srverr=1),
